@@ -29,12 +29,15 @@ LEVEL_TEXT = (
     "byte_range); (R11.6) each None from the three range functions leads only to RequestedRangeNotSatisfiable and "
     "send_file closes its file on that path; (R11.7) every non-None result (S, T) of Range.range_for_length is dominated "
     "by branch facts 0 <= S, S < T and T <= length on the returned values (inline or through is_byte_range_valid, whose "
-    "own branch structure is enumerated), and by the bytes-unit, known-length and single-range tests. Decided on all "
-    "paths of these functions; the byte arithmetic of _RangeWrapper for each chunking is not decided."
+    "own branch structure is enumerated), and by the bytes-unit, known-length and single-range tests; (R11.8) in "
+    "_RangeWrapper the counter compared with the absolute end start_byte + byte_range is re-based to the body's absolute "
+    "position after every seek of the body. Decided on all paths of these functions; the rest of the byte arithmetic of "
+    "_RangeWrapper (skipping to start on non-seekable bodies, trimming the first and last chunk for each chunking) is not decided."
 )
 TRUSTED = [
     "CPython ast",
     "datetime semantics: replace(tzinfo=) relabels, astimezone() converts, aware datetimes compare by instant",
+    "file objects: seek(x) positions the body at absolute offset x without reading, tell() returns the absolute position",
     "RFC 9110 13.1.1-13.1.5 / 14: weak comparison for If-None-Match, '*' admits any current representation, If-None-Match takes precedence over If-Modified-Since",
 ]
 ASSUMPTIONS = [
@@ -79,14 +82,28 @@ class ETagsModel:
             raise AnalysisError(f"ETags.__init__: cannot attribute the stored fields to strong/weak/star: {roles}")
         self._paths: dict[str, list[H.BoolPath]] = {}
 
+    def _member(self, m: FuncInfo, coll: ast.AST) -> list[str] | None:
+        """roles of the stored sets a collection expression is made of: self._weak -> ['w'], self._weak | self._strong -> ['w', 's']"""
+        if astq.is_self_attr(coll) and coll.attr in self.attr_role and self.attr_role[coll.attr] in ("w", "s"):  # type: ignore[attr-defined]
+            return [self.attr_role[coll.attr]]  # type: ignore[attr-defined]
+        if isinstance(coll, ast.BinOp) and isinstance(coll.op, ast.BitOr):
+            a, b = self._member(m, coll.left), self._member(m, coll.right)
+            return None if a is None or b is None else a + b
+        if isinstance(coll, ast.Call) and isinstance(coll.func, ast.Attribute) and coll.func.attr == "union" and not coll.keywords:
+            parts = [self._member(m, x) for x in [coll.func.value, *coll.args]]
+            return None if any(x is None for x in parts) else [r for x in parts for r in x]  # type: ignore[union-attr]
+        return None
+
     def _atom(self, m: FuncInfo, atom: ast.AST):
-        """-> ("w"|"s"|"x") or ("call", method name)"""
+        """-> list of roles ("w"|"s"|"x") any of which makes the atom true, or ("call", method name)"""
         tag = [p for p in m.params if p != "self"]
-        if astq.is_self_attr(atom) and atom.attr in self.attr_role:
-            return self.attr_role[atom.attr]
+        if astq.is_self_attr(atom) and atom.attr in self.attr_role and self.attr_role[atom.attr] == "x":
+            return ["x"]
         p = astq.cmp_parts(atom)
-        if p and isinstance(p[1], ast.In) and astq.is_self_attr(p[2]) and p[2].attr in self.attr_role and tag and astq.is_name(p[0], tag[0]):
-            return self.attr_role[p[2].attr]
+        if p and isinstance(p[1], ast.In) and tag and astq.is_name(p[0], tag[0]):
+            roles = self._member(m, p[2])
+            if roles is not None:
+                return roles
         if isinstance(atom, ast.Call) and isinstance(atom.func, ast.Attribute) and astq.is_name(atom.func.value, "self") and len(atom.args) == 1 and not atom.keywords and tag and astq.is_name(atom.args[0], tag[0]):
             return ("call", atom.func.attr)
         raise AnalysisError(f"ETags.{m.name}: cannot interpret condition `{norm(atom)}`")
@@ -105,7 +122,7 @@ class ETagsModel:
             ok = True
             for atom, label in bp.literals:
                 a = self._atom(m, atom)
-                v = env[a] if isinstance(a, str) else self.value(a[1], w, s, x, depth + 1)
+                v = any(env[r] for r in a) if isinstance(a, list) else self.value(a[1], w, s, x, depth + 1)
                 if v != (label == "T"):
                     ok = False
                     break
@@ -153,19 +170,28 @@ def _only_param_def(A: FA, name_node: ast.Name, pname: str) -> bool:
     return len(ds) == 1 and next(iter(ds)).kind == "param"
 
 
-def _verdict(A: FA) -> tuple[str, int]:
+def _verdict(A: FA) -> tuple[str, int, list[ast.Return]]:
+    """(verdict variable V, number of `not` in `return not V`, the *direct* returns).  A direct return is a guard
+    clause that returns a validator comparison itself (``return not parse_etags(x).contains(etag)``) instead of
+    storing it in V and falling through to ``return not V``: it counts as a verdict statement (rule_1 requires that it
+    holds a validator comparison, R11.2 treats it as an assignment that nothing follows)."""
     rets = astq.returns_of(A.fi.node)
     got = set()
+    direct: list[ast.Return] = []
     for r in rets:
         if r.value is None:
             raise AnalysisError(f"{A.fi.fq}: bare return")
         e, n = H.strip_not(r.value)
-        if not isinstance(e, ast.Name):
-            raise AnalysisError(f"{A.fi.fq}: return value `{norm(r.value)}` is not a (negated) verdict variable")
-        got.add((e.id, n % 2))
+        if isinstance(e, ast.Name):
+            got.add((e.id, n % 2))
+        else:
+            direct.append(r)
+    if not got:
+        raise AnalysisError(f"{A.fi.fq}: no return of a (negated) verdict variable")
     if len(got) != 1:
         raise AnalysisError(f"{A.fi.fq}: returns disagree on the verdict variable: {sorted(got)}")
-    return next(iter(got))
+    v, p = next(iter(got))
+    return v, p, direct
 
 
 def _polarity_to_stmt(call: ast.AST) -> tuple[ast.stmt | None, int, bool]:
@@ -185,8 +211,16 @@ def _polarity_to_stmt(call: ast.AST) -> tuple[ast.stmt | None, int, bool]:
     return p, n, pure
 
 
-def rule_1(ctx: Ctx, A: FA, V: str, p_r: int, model: ETagsModel) -> dict[str, list[ast.stmt]]:
-    """returns role -> verdict assignment statements (used by R11.2)."""
+def _is_if_range_tag(A: FA, x: ast.AST) -> bool:
+    """`<v>.etag` where every non-None binding of v is parse_if_range_header(http_if_range)"""
+    if not (isinstance(x, ast.Attribute) and x.attr == "etag" and isinstance(x.value, ast.Name)):
+        return False
+    vals = [d.value for d in A.defs(x.value) if d.value is not None and not astq.is_none(d.value)]
+    return bool(vals) and all(isinstance(v, ast.Call) and A.resolve(v.func) == "werkzeug.http.parse_if_range_header" and len(v.args) == 1 and isinstance(v.args[0], ast.Name) and _only_param_def(A, v.args[0], "http_if_range") for v in vals)
+
+
+def rule_1(ctx: Ctx, A: FA, V: str, p_r: int, direct: list[ast.Return], model: ETagsModel) -> dict[str, list[ast.stmt]]:
+    """returns role -> verdict statements (assignments of V, or direct returns) (used by R11.2)."""
     repo = ctx.repo
     R = "R11.1"
     san = A.fi
@@ -202,9 +236,12 @@ def rule_1(ctx: Ctx, A: FA, V: str, p_r: int, model: ETagsModel) -> dict[str, li
     for p in VALIDATOR_PARAMS:
         n += 1
         a = b.get(p)
-        hk = H.header_get_key(a) if a is not None else None
+        src = a
+        if isinstance(src, ast.Name):  # header read into a local first
+            src = WA.single_value(src) or src
+        hk = H.header_get_key(src) if src is not None else None
         ok = hk is not None and hk[0] == env_name and hk[1] == p.upper()
-        ctx.ob(R, f"http.is_resource_modified passes environ[{p.upper()!r}] as {p}", ok, f"argument bound to `{p}`: {norm(a) if a is not None else 'absent (parameter default)'}", wrap, a or cs[0], f"wrapper wires {p}")
+        ctx.ob(R, f"http.is_resource_modified passes environ[{p.upper()!r}] as {p}", ok, f"argument bound to `{p}`: {norm(a) if a is not None else 'absent (parameter default)'}" + (f" = {norm(src)}" if src is not a and src is not None else ""), wrap, a or cs[0], f"wrapper wires {p}")
     for p in PASS_PARAMS:
         n += 1
         a = b.get(p)
@@ -223,10 +260,12 @@ def rule_1(ctx: Ctx, A: FA, V: str, p_r: int, model: ETagsModel) -> dict[str, li
             role = "INM"
         elif isinstance(x, ast.Name) and _only_param_def(A, x, "http_if_match"):
             role = "IM"
-        elif isinstance(x, ast.Attribute) and x.attr == "etag" and isinstance(x.value, ast.Name):
-            ds = A.defs(x.value)
-            vals = [d.value for d in ds if d.value is not None and not astq.is_none(d.value)]
-            if vals and all(isinstance(v, ast.Call) and A.resolve(v.func) == "werkzeug.http.parse_if_range_header" and len(v.args) == 1 and isinstance(v.args[0], ast.Name) and _only_param_def(A, v.args[0], "http_if_range") for v in vals):
+        elif _is_if_range_tag(A, x):
+            role = "IFR"
+        elif isinstance(x, ast.Name):
+            # tag = if_range.etag if if_range is not None else None ... parse_etags(tag)
+            arms = [v for d in A.defs(x) if d.kind in ("assign", "walrus") and d.index is None for v, _ in H.split_ifexp(d.value) if v is not None and not astq.is_none(v)]
+            if arms and all(d.kind in ("assign", "walrus") and d.index is None for d in A.defs(x)) and all(_is_if_range_tag(A, v) for v in arms):
                 role = "IFR"
         if role is None:
             raise AnalysisError(f"{san.fq}: cannot tell which validator `{norm(c)}` parses")
@@ -247,16 +286,13 @@ def rule_1(ctx: Ctx, A: FA, V: str, p_r: int, model: ETagsModel) -> dict[str, li
             if isinstance(par, ast.Attribute) and isinstance(astq.parent(par), ast.Call) and astq.parent(par).func is par:
                 cmps.append(astq.parent(par))
             else:
-                st = astq.stmt_of(san, c)
-                if isinstance(st, (ast.Assign, ast.AnnAssign)) and st.value is c:
-                    tg = st.targets[0] if isinstance(st, ast.Assign) else st.target
-                    if isinstance(tg, ast.Name):
-                        for mc in astq.calls(san.node, nested=False):
-                            f = mc.func
-                            if isinstance(f, ast.Attribute) and astq.is_name(f.value, tg.id):
-                                ds = A.defs(f.value)
-                                if len(ds) == 1 and next(iter(ds)).stmt is st:
-                                    cmps.append(mc)
+                # the parsed header is bound to a local (assignment or walrus): the method calls on exactly that binding
+                held = [d for ds in A.rd.gen.values() for d in ds if d.value is c and d.kind in ("assign", "walrus") and d.index is None]
+                for d0 in held:
+                    for mc in astq.calls(san.node, nested=False):
+                        f = mc.func
+                        if isinstance(f, ast.Attribute) and astq.is_name(f.value, d0.name) and A.defs(f.value) == frozenset([d0]):
+                            cmps.append(mc)
             if not cmps:
                 ctx.ob(R, f"{names[role]}: parsed tags are compared with the response ETag", False, f"`{norm(c)}` is never asked about the ETag", san, c, f"{role} compared")
                 continue
@@ -274,7 +310,12 @@ def rule_1(ctx: Ctx, A: FA, V: str, p_r: int, model: ETagsModel) -> dict[str, li
                     ok_arg = bool(ds)
                     for d in ds:
                         v = d.value
-                        good = d.kind == "unpack" and d.index == 0 and isinstance(v, ast.Call) and A.resolve(v.func) == "werkzeug.http.unquote_etag" and len(v.args) == 1 and isinstance(v.args[0], ast.Name)
+                        if d.kind == "assign" and d.index is None and (sc := H.subscript_const(v)) is not None and sc[1] == 0:
+                            v = sc[0]  # etag = unquote_etag(etag)[0]
+                            good = True
+                        else:
+                            good = d.kind == "unpack" and d.index == 0
+                        good = good and isinstance(v, ast.Call) and A.resolve(v.func) == "werkzeug.http.unquote_etag" and len(v.args) == 1 and isinstance(v.args[0], ast.Name)
                         if good:
                             src = A.rd.reaching(d.node, v.args[0].id)  # type: ignore[arg-type,union-attr]
                             good = bool(src) and all(s.kind == "param" and s.name == "etag" or (s.kind == "assign" and isinstance(s.value, ast.Call) and A.resolve(s.value.func) == "werkzeug.http.generate_etag") for s in src)
@@ -284,95 +325,320 @@ def rule_1(ctx: Ctx, A: FA, V: str, p_r: int, model: ETagsModel) -> dict[str, li
                 # polarity into the verdict
                 st, nnot, pure = _polarity_to_stmt(mc)
                 is_v = isinstance(st, ast.Assign) and len(st.targets) == 1 and astq.is_name(st.targets[0], V) or isinstance(st, ast.AugAssign) and astq.is_name(st.target, V)
-                if not is_v or not pure:
-                    raise AnalysisError(f"{san.fq}: result of `{norm(mc)}` does not enter the verdict `{V}` through not/and/or only")
+                is_ret = isinstance(st, ast.Return) and any(st is r for r in direct)
+                if not (is_v or is_ret) or not pure:
+                    raise AnalysisError(f"{san.fq}: result of `{norm(mc)}` does not enter the verdict `{V}` (or a return) through not/and/or only")
                 verdicts[role].append(st)
-                odd = (nnot + p_r) % 2
-                ctx.ob(R, f"{names[role]}: a match means {'not modified' if want_odd[role] else 'precondition holds (modified / proceed)'}", odd == want_odd[role], f"`{norm(st)}` with `return {'not ' if p_r else ''}{V}`: result is {'the negation of' if odd else 'equal to'} the match", san, st, f"{role} polarity")
+                # `return E` is `V = E'; return (not) V` with nothing in between: the function's result is E itself
+                odd = (nnot + (0 if is_ret else p_r)) % 2
+                how = "returned directly" if is_ret else f"with `return {'not ' if p_r else ''}{V}`"
+                ctx.ob(R, f"{names[role]}: a match means {'not modified' if want_odd[role] else 'precondition holds (modified / proceed)'}", odd == want_odd[role], f"`{norm(st)}` {how}: result is {'the negation of' if odd else 'equal to'} the match", san, st, f"{role} polarity")
     ctx.floor(R, "validator comparisons", ncmp, 3)
+    stray = [r for r in direct if not any(r is st for sts in verdicts.values() for st in sts)]
+    if stray:
+        raise AnalysisError(f"{san.fq}: return value `{norm(stray[0].value)}` is neither the (negated) verdict variable nor a validator comparison")
 
     # ---- (c) parse_etags files weak / strong tags under the right constructor parameter
+    _parse_etags_wiring(ctx, model)
+    return verdicts
+
+
+_COLLECTION_COPIES = {"list", "tuple", "set", "frozenset", "sorted"}
+
+
+def _is_list_creation(e: ast.AST | None) -> bool:
+    return isinstance(e, ast.List) and not e.elts or isinstance(e, ast.Call) and dotted(e.func) == "list" and not e.args and not e.keywords
+
+
+def _parse_etags_wiring(ctx: Ctx, model: ETagsModel) -> None:
+    """every append that can reach the list handed to ETags(weak_etags=...) happens only when the W/ flag of the
+    current member is set, every append reaching strong_etags only when it is not.  Decided by walking the paths from
+    the statement that binds the flag to each append and resolving the receiver along the path (the list itself, a
+    local alias, a conditional expression on the flag), so `if flag: weak.append(x) else: strong.append(x)` and
+    `tags = weak if flag else strong; tags.append(x)` give the same table."""
+    R = "R11.1"
+    repo = ctx.repo
     pe = repo.func("werkzeug.http.parse_etags")
     PA = FA(repo, pe)
     ctors = [c for c in astq.calls(pe.node, nested=False) if (PA.resolve(c.func) or "") == model.cls.fq]
     if not ctors:
         raise AnalysisError("parse_etags: no ETags construction found")
-    flag = _weak_flag(ctx, PA)
+    flag, fdef = _weak_flag(ctx, PA)
+    fnode = fdef.node
+
+    # the lists handed to the constructor: creation binding -> parameter name
+    tracked: dict = {}
     nlist = 0
     for c in ctors:
         bb = H.bind(c, model.init, bound=True)
-        for pname, lbl, what in (("weak_etags", "T", "weak"), ("strong_etags", "F", "strong")):
+        for pname in ("weak_etags", "strong_etags"):
             a = bb.get(pname)
             if a is None:
                 continue
+            while isinstance(a, ast.Call) and dotted(a.func) in _COLLECTION_COPIES and len(a.args) == 1 and not a.keywords:
+                a = a.args[0]
             if not isinstance(a, ast.Name):
                 raise AnalysisError(f"parse_etags: `{norm(a)}` passed as {pname} is not a local list")
-            apps = [m for m in PA.method_calls("append") if astq.is_name(m.func.value, a.id)]  # type: ignore[attr-defined]
-            if not apps:
-                raise AnalysisError(f"parse_etags: nothing is appended to `{a.id}`")
-            for m in apps:
-                nlist += 1
-                ok = PA.dominated_by(m, flag, lbl)
-                ctx.ob(R, f"parse_etags: the list passed as {pname} collects the {what} tags", ok, f"`{norm(m)}` is {'' if ok else 'NOT '}on the {'true' if lbl == 'T' else 'false'} side of the weakness flag `{norm(flag.ast)}`", pe, m, f"parse_etags {pname} append")
+            ds = PA.defs(a)
+            if not ds or not all(d.kind == "assign" and d.index is None and _is_list_creation(d.value) for d in ds):
+                raise AnalysisError(f"parse_etags: `{a.id}` passed as {pname} is not bound to a fresh list only: {sorted(norm(d.stmt) if d.stmt is not None else d.kind for d in ds)}")
+            for d in ds:
+                if tracked.setdefault(d, pname) != pname:
+                    raise AnalysisError(f"parse_etags: the list `{a.id}` is passed both as weak_etags and as strong_etags")
         st = bb.get("star_tag")
         if st is not None:
             nlist += 1
-            stars = [t_ for t_, l in PA.guards(c) if l == "T" and isinstance(t_.ast, ast.Compare) and any(astq.const_str(x) == "*" for x in [t_.ast.left, *t_.ast.comparators]) and isinstance(t_.ast.ops[0], ast.Eq)]
+            stars = []
+            for t_, l in PA.guards(c):
+                pp = astq.cmp_parts(t_.ast) if t_.ast is not None else None
+                if pp and any(astq.const_str(x) == "*" for x in (pp[0], pp[2])) and (isinstance(pp[1], ast.Eq) and l == "T" or isinstance(pp[1], ast.NotEq) and l == "F"):
+                    stars.append(t_)
             ctx.ob(R, "parse_etags: star_tag is set only for a '*' member", bool(stars) and isinstance(st, ast.Constant) and st.value is True, f"`{norm(c)}` guarded by {[norm(t_.ast) for t_ in stars]}", pe, c, "parse_etags star")
+    if set(tracked.values()) != {"weak_etags", "strong_etags"}:
+        raise AnalysisError(f"parse_etags: no ETags construction receives both a weak and a strong list ({sorted(set(tracked.values()))})")
+
+    # names that can carry one of the lists (the lists themselves and local aliases), and what they may be used for
+    carriers = {d.name for d in tracked}
+    alldefs = [d for ds in PA.rd.gen.values() for d in ds]
+    grew = True
+    while grew:
+        grew = False
+        for d in alldefs:
+            if d.name in carriers or d.value is None or d.kind not in ("assign", "walrus") or d.index is not None:
+                continue
+            arms = _alias_arms(d.value)
+            if arms is not None and any(isinstance(x, ast.Name) and x.id in carriers for x in arms):
+                carriers.add(d.name)
+                grew = True
+    ctor_args = {id(x) for c in ctors for a in [*c.args, *[k.value for k in c.keywords]] for x in ast.walk(a)}
+    for x in walk_no_nested(pe.node):
+        if isinstance(x, ast.Name) and isinstance(x.ctx, ast.Load) and x.id in carriers and id(x) not in ctor_args:
+            par = astq.parent(x)
+            while isinstance(par, ast.IfExp) and x is not par.test:
+                x, par = par, astq.parent(par)  # type: ignore[assignment]
+            recv = isinstance(par, ast.Attribute) and par.attr == "append" and isinstance(astq.parent(par), ast.Call) and astq.parent(par).func is par  # type: ignore[union-attr]
+            alias = isinstance(par, (ast.Assign, ast.AnnAssign, ast.NamedExpr)) and par.value is x and isinstance(par.targets[0] if isinstance(par, ast.Assign) else par.target, ast.Name)
+            if not (recv or alias):
+                raise AnalysisError(f"parse_etags: the tag list `{norm(x)}` is used in `{norm(astq.stmt_of(pe, x))[:70]}`, which is neither an append nor a plain alias: cannot follow where tags are filed")
+
+    def flag_edge(t_, label: str) -> bool | None:
+        """value of the flag implied by taking this edge (None: the test says nothing about the current flag)"""
+        if t_.kind != "test" or t_.ast is None:
+            return None
+        v = _flag_truth(t_.ast, flag)
+        if v is None:
+            return None
+        if {d for d in PA.rd.reaching(t_, flag)} != {fdef}:
+            return None
+        return v == (label == "T")
+
+    def resolve(e: ast.AST, prefix: list, at, fv: bool | None, depth: int = 0) -> list[tuple]:
+        """possible (creation binding | None, flag value) of a list-valued expression evaluated in node `at` after the
+        path `prefix` (nodes passed since the flag was bound)."""
+        if depth > 8:
+            return [(None, fv)]
+        if isinstance(e, ast.NamedExpr):
+            return resolve(e.value, prefix, at, fv, depth + 1)
+        if isinstance(e, ast.IfExp):
+            v = _flag_truth(e.test, flag)
+            if v is None or {d for d in PA.rd.reaching(at, flag)} != {fdef}:
+                return resolve(e.body, prefix, at, fv, depth + 1) + resolve(e.orelse, prefix, at, fv, depth + 1)
+            out = []
+            for val in (True, False):
+                if fv is not None and fv != val:
+                    continue
+                out += resolve(e.body if val == v else e.orelse, prefix, at, val, depth + 1)
+            return out
+        if isinstance(e, ast.Name):
+            for i in range(len(prefix) - 1, -1, -1):
+                for d in PA.rd.gen[prefix[i].id]:
+                    if d.name == e.id:
+                        if d.kind in ("assign", "walrus") and d.index is None and d.value is not None:
+                            if _is_list_creation(d.value):
+                                return [(d, fv)]
+                            return resolve(d.value, prefix[:i], prefix[i], fv, depth + 1)
+                        return [(None, fv)]
+            out = []
+            for d in PA.rd.reaching(fnode, e.id):  # bound before the flag: only plain aliases are followed
+                if d.kind == "assign" and d.index is None and _is_list_creation(d.value):
+                    out.append((d, fv))
+                elif d.kind == "assign" and d.index is None and isinstance(d.value, ast.Name) and d.node is not None:
+                    out += [(c_, fv) for c_, _ in _static_alias(d.value, d.node, depth + 1)]
+                else:
+                    out.append((None, fv))
+            return out
+        return [(None, fv)]
+
+    def _static_alias(e: ast.Name, at, depth: int) -> list[tuple]:
+        if depth > 8:
+            return [(None, None)]
+        out = []
+        for d in PA.rd.reaching(at, e.id):
+            if d.kind == "assign" and d.index is None and _is_list_creation(d.value):
+                out.append((d, None))
+            elif d.kind == "assign" and d.index is None and isinstance(d.value, ast.Name) and d.node is not None:
+                out += _static_alias(d.value, d.node, depth + 1)
+            else:
+                out.append((None, None))
+        return out
+
+    def appends_in(n) -> list[ast.Call]:
+        if n.kind not in ("stmt", "test") or n.ast is None:
+            return []
+        return [c for c in [n.ast, *walk_no_nested(n.ast)] if isinstance(c, ast.Call) and isinstance(c.func, ast.Attribute) and c.func.attr == "append"]
+
+    # routes[(call id, parameter)] = list of flag values under which the call appends to that parameter's list
+    routes: dict[tuple[int, str], list[bool | None]] = {}
+    sites: dict[int, ast.Call] = {}
+    cfg = PA.cfg
+    stack = [(s, [fnode], None, frozenset([fnode.id])) for s, l in fnode.succs if l != "exc"]
+    steps = 0
+    while stack:
+        n, prefix, fv, seen = stack.pop()
+        steps += 1
+        if steps > 20000:
+            raise AnalysisError("parse_etags: too many paths between the weakness flag and the appends")
+        if n is cfg.exit or n is cfg.raise_exit or n.id in seen:
+            continue
+        for c in appends_in(n):
+            for cre, v in resolve(c.func.value, prefix, n, fv):  # type: ignore[attr-defined]
+                if cre in tracked:
+                    routes.setdefault((id(c), tracked[cre]), []).append(v)
+                    sites[id(c)] = c
+        for s, l in n.succs:
+            if l == "exc":
+                continue
+            v2 = fv
+            if l in ("T", "F"):
+                fe = flag_edge(n, l)
+                if fe is not None:
+                    if fv is not None and fv != fe:
+                        continue  # contradicts an earlier test of the same flag
+                    v2 = fe
+            stack.append((s, prefix + [n], v2, seen | {n.id}))
+    # appends to a tracked list that are not behind the flag binding at all
+    for n in cfg.nodes:
+        for c in appends_in(n):
+            if id(c) in sites or not cfg.reachable(n):
+                continue
+            names = astq.names_in(c.func.value) & carriers  # type: ignore[attr-defined]
+            if names:
+                for pname in sorted({tracked[d] for d in tracked if d.name in names} or set(tracked.values())):
+                    routes.setdefault((id(c), pname), []).append(None)
+                sites[id(c)] = c
+    for pname, want, what in (("weak_etags", True, "weak"), ("strong_etags", False, "strong")):
+        mine = [(cid, vs) for (cid, pn), vs in routes.items() if pn == pname]
+        if not mine:
+            raise AnalysisError(f"parse_etags: nothing is appended to the list passed as {pname}")
+        for cid, vs in sorted(mine, key=lambda p: (sites[p[0]].lineno, sites[p[0]].col_offset)):
+            m = sites[cid]
+            nlist += 1
+            dom = cfg.node_dominates(fnode, PA.node(m))
+            ok = dom and all(v is want for v in vs)
+            seen_vals = sorted({"undecided" if v is None else ("set" if v else "not set") for v in vs})
+            ctx.ob(R, f"parse_etags: the list passed as {pname} collects the {what} tags", ok, f"`{norm(m)}` files into the {what} list with the weakness flag `{flag}` {' / '.join(seen_vals)}" + ("" if dom else " (also reachable without binding the flag)"), pe, m, f"parse_etags {pname} append")
     ctx.floor(R, "parse_etags list wiring", nlist, 3)
-    return verdicts
+
+
+def _alias_arms(e: ast.AST) -> list[ast.AST] | None:
+    """arms of a (nested) conditional expression over names; None when e is anything else"""
+    if isinstance(e, ast.Name):
+        return [e]
+    if isinstance(e, ast.IfExp):
+        a, b = _alias_arms(e.body), _alias_arms(e.orelse)
+        return None if a is None or b is None else a + b
+    return None
+
+
+def _flag_truth(test: ast.AST, flag: str) -> bool | None:
+    """True: the condition is the flag's truth value; False: its negation; None: something else.
+    (`flag`, `not flag`, `bool(flag)`, `flag is None`, `flag is not None`: group 1 is None or the marker text)"""
+    e, n = H.strip_not(test)
+    pos = n % 2 == 0
+    if isinstance(e, ast.Call) and dotted(e.func) == "bool" and len(e.args) == 1 and not e.keywords:
+        e = e.args[0]
+    if astq.is_name(e, flag):
+        return pos
+    p = astq.cmp_parts(e)
+    if p and astq.is_name(p[0], flag) and astq.is_none(p[2]):
+        if isinstance(p[1], ast.Is):
+            return not pos
+        if isinstance(p[1], ast.IsNot):
+            return pos
+    return None
 
 
 def _weak_flag(ctx: Ctx, PA: FA):
-    """the condition atom in parse_etags that tells a weak tag: a name unpacked from position 0 of ``<match>.groups()``
-    of a regex whose first group is the optional ``W/`` marker."""
+    """the local in parse_etags that tells a weak tag: bound from position 0 of ``<match>.groups()`` (or from
+    ``<match>.group(1)`` / ``<match>[1]``) of a regex whose first group is the optional ``W/`` marker.
+    -> (name, binding)"""
     pe = PA.fi
-    for t_ in PA.cfg.tests():
-        if t_.kind != "test" or not isinstance(t_.ast, ast.Name):
-            continue
-        ds = PA.defs(t_.ast)
-        if not ds or not all(d.kind == "unpack" and d.index == 0 and isinstance(d.value, ast.Call) and isinstance(d.value.func, ast.Attribute) and d.value.func.attr == "groups" for d in ds):
-            continue
-        d = next(iter(ds))
-        m = d.value.func.value  # type: ignore[union-attr]
-        if not isinstance(m, ast.Name):
-            continue
-        mv = [x.value for x in PA.rd.reaching(d.node, m.id)]  # type: ignore[arg-type]
-        if len(mv) != 1 or not (isinstance(mv[0], ast.Call) and isinstance(mv[0].func, ast.Attribute) and mv[0].func.attr in ("match", "fullmatch", "search")):
-            continue
-        rxname = dotted(mv[0].func.value)
-        if rxname is None:
-            continue
-        fq = PA.resolve(mv[0].func.value) or ""
-        mn, _, nm = fq.rpartition(".")
-        rx = Folder(ctx.repo).name(ctx.repo.module(mn), nm)
-        if not isinstance(rx, RegexConst):
-            raise AnalysisError(f"parse_etags: {fq} does not fold to a regex")
-        cls0 = classes_in(rx)
-        marker = bool(cls0) and cls0[0] == {ord("W"), ord("w")} and group_width(rx, 1) == (2, 2) and str(rx.pattern).startswith("(")
-        ctx.ob("R11.1", "parse_etags: the weakness flag is group 1 of the tag regex, the W/ marker", marker, f"{nm} = {rx.pattern!r}: first class {sorted(map(chr, cls0[0])) if cls0 else None}, group 1 width {group_width(rx, 1)}", pe, t_.ast, "parse_etags weak flag group")
-        return t_
-    raise AnalysisError("parse_etags: weakness flag (position 0 of match.groups()) not found")
+    found = []
+    for ds in PA.rd.gen.values():
+        for d in ds:
+            v = d.value
+            m = None
+            if d.kind == "unpack" and d.index == 0 and isinstance(v, ast.Call) and isinstance(v.func, ast.Attribute) and v.func.attr == "groups" and not v.args:
+                m = v.func.value
+            elif d.kind in ("assign", "walrus") and d.index is None and isinstance(v, ast.Call) and isinstance(v.func, ast.Attribute) and v.func.attr == "group" and len(v.args) == 1 and isinstance(v.args[0], ast.Constant) and v.args[0].value == 1:
+                m = v.func.value
+            elif d.kind in ("assign", "walrus") and d.index is None and isinstance(v, ast.Subscript) and isinstance(v.slice, ast.Constant) and v.slice.value == 1:
+                m = v.value
+            if not isinstance(m, ast.Name) or d.node is None:
+                continue
+            mv = [x.value for x in PA.rd.reaching(d.node, m.id)]
+            if len(mv) != 1 or not (isinstance(mv[0], ast.Call) and isinstance(mv[0].func, ast.Attribute) and mv[0].func.attr in ("match", "fullmatch", "search")):
+                continue
+            if dotted(mv[0].func.value) is None:
+                continue
+            found.append((d, mv[0]))
+    if not found:
+        raise AnalysisError("parse_etags: weakness flag (group 1 of the tag regex match) not found")
+    if len(found) > 1:
+        raise AnalysisError(f"parse_etags: several bindings of group 1 of a regex match: {[d.name for d, _ in found]}")
+    d, mcall = found[0]
+    fq = PA.resolve(mcall.func.value) or ""
+    mn, _, nm = fq.rpartition(".")
+    rx = Folder(ctx.repo).name(ctx.repo.module(mn), nm)
+    if not isinstance(rx, RegexConst):
+        raise AnalysisError(f"parse_etags: {fq} does not fold to a regex")
+    cls0 = classes_in(rx)
+    marker = bool(cls0) and cls0[0] == {ord("W"), ord("w")} and group_width(rx, 1) == (2, 2) and str(rx.pattern).startswith("(")
+    ctx.ob("R11.1", "parse_etags: the weakness flag is group 1 of the tag regex, the W/ marker", marker, f"`{d.name}` <- {nm} = {rx.pattern!r}: first class {sorted(map(chr, cls0[0])) if cls0 else None}, group 1 width {group_width(rx, 1)}", pe, d.target if d.target is not None else d.stmt, "parse_etags weak flag group")
+    return d.name, d
 
 
 # ---------------------------------------------------------------------
 # R11.2 precedence
 
 
-def rule_2(ctx: Ctx, A: FA, V: str, verdicts: dict[str, list[ast.stmt]]) -> None:
+def rule_2(ctx: Ctx, A: FA, V: str, direct: list[ast.Return], verdicts: dict[str, list[ast.stmt]]) -> None:
     R = "R11.2"
     san = A.fi
     names = {"INM": "If-None-Match", "IM": "If-Match", "IFR": "If-Range tag"}
-    ifr_vars = {d.name for ds in A.rd.gen.values() for d in ds if isinstance(d.value, ast.Call) and A.resolve(d.value.func) == "werkzeug.http.parse_if_range_header"}
+    alld = [d for ds in A.rd.gen.values() for d in ds]
+    ifr_vars = {d.name for d in alld if isinstance(d.value, ast.Call) and A.resolve(d.value.func) == "werkzeug.http.parse_if_range_header"}
+    grew = True
+    while grew:  # locals computed from the parsed If-Range only (range_tag = if_range.etag if if_range is not None else None)
+        grew = False
+        for d in alld:
+            if d.name not in ifr_vars and d.name != V and d.value is not None and d.kind in ("assign", "walrus") and astq.names_in(d.value) and astq.names_in(d.value) <= ifr_vars:
+                ifr_vars.add(d.name)
+                grew = True
     n = 0
     for role in ("INM", "IFR", "IM"):
         for st in verdicts[role]:
             n += 1
-            plain = isinstance(st, ast.Assign) and V not in astq.names_in(st.value)
+            plain = isinstance(st, (ast.Assign, ast.Return)) and V not in astq.names_in(st.value)  # type: ignore[arg-type]
             ctx.ob(R, f"{names[role]} verdict replaces the earlier verdict (plain assignment, not combined with it)", plain, f"`{norm(st)}`", san, st, f"{role} verdict plain")
     for st in verdicts["INM"]:
         node = A.node(st)
         allowed = (astq.names_in(st.value) - {V}) | {"etag"} | ifr_vars  # type: ignore[attr-defined]
+        # ... and what the parsed header was computed from (`if (inm := parse_etags(http_if_none_match)):`)
+        for x in [x for x in ast.walk(st.value) if isinstance(x, ast.Name) and x.id != V]:  # type: ignore[attr-defined]
+            for d in A.defs(x):
+                if d.value is not None and d.kind in ("assign", "walrus"):
+                    allowed |= astq.names_in(d.value) - {V}
         extra = []
         for t_, l in A.guards(node):
             nm = astq.names_in(t_.ast) if t_.ast is not None else set()
@@ -382,6 +648,7 @@ def rule_2(ctx: Ctx, A: FA, V: str, verdicts: dict[str, list[ast.stmt]]) -> None
         ctx.ob(R, "If-None-Match decides whenever it is sent and the response has an ETag", not extra, f"`{norm(st)}` additionally requires: {extra}" if extra else f"`{norm(st)}` is conditioned only on the ETag / the parsed header / If-Range", san, st, "INM verdict guards")
         reach = A.cfg.reach(node)
         later = [dn for dn in A.def_nodes_of(V) if dn is not node and dn.id in reach]
+        later += [A.node(r) for r in direct if r is not st and A.node(r).id in reach]
         bad = [dn for dn in later if not any(dn.ast is s for s in verdicts["IM"])]
         n += 1
         ctx.ob(R, "after the If-None-Match verdict only If-Match can change the verdict (the date verdict comes first)", not bad, f"assignments of `{V}` reachable after `{norm(st)}`: {[dn.text() for dn in later]}", san, bad[0].ast if bad else st, "INM verdict final")
@@ -471,53 +738,116 @@ def _naive_guarded(X: FA, call: ast.Call) -> bool:
     return False
 
 
+def _bool_leaves(e: ast.AST) -> list[ast.AST]:
+    """condition atoms of a boolean expression (and / or / not / bool(...) / a if c else b peeled off)"""
+    if isinstance(e, ast.BoolOp):
+        return [x for v in e.values for x in _bool_leaves(v)]
+    if isinstance(e, ast.UnaryOp) and isinstance(e.op, ast.Not):
+        return _bool_leaves(e.operand)
+    if isinstance(e, ast.Call) and dotted(e.func) == "bool" and len(e.args) == 1 and not e.keywords:
+        return _bool_leaves(e.args[0])
+    if isinstance(e, ast.IfExp):
+        return _bool_leaves(e.test) + _bool_leaves(e.body) + _bool_leaves(e.orelse)
+    return [e]
+
+
+def _bool_eval(e: ast.AST, val: dict[int, bool]) -> bool:
+    if isinstance(e, ast.BoolOp):
+        vs = [_bool_eval(v, val) for v in e.values]
+        return all(vs) if isinstance(e.op, ast.And) else any(vs)
+    if isinstance(e, ast.UnaryOp) and isinstance(e.op, ast.Not):
+        return not _bool_eval(e.operand, val)
+    if isinstance(e, ast.Call) and dotted(e.func) == "bool" and len(e.args) == 1 and not e.keywords:
+        return _bool_eval(e.args[0], val)
+    if isinstance(e, ast.IfExp):
+        return _bool_eval(e.body if _bool_eval(e.test, val) else e.orelse, val)
+    if isinstance(e, ast.Constant):
+        return bool(e.value)
+    return val[id(e)]
+
+
 def rule_3(ctx: Ctx, A: FA, V: str, p_r: int) -> None:
     R = "R11.3"
     san = A.fi
     repo = ctx.repo
-    comps = []
-    for t_ in A.cfg.tests():
-        p = astq.cmp_parts(t_.ast) if t_.kind == "test" and t_.ast is not None else None
-        if p is None or not isinstance(p[1], (ast.Lt, ast.LtE, ast.Gt, ast.GtE, ast.Eq, ast.NotEq)):
-            continue
+    ORD = (ast.Lt, ast.LtE, ast.Gt, ast.GtE, ast.Eq, ast.NotEq)
+
+    def date_sides(cmp: ast.AST | None, at) -> tuple[ast.Name, ast.AST] | None:
+        p = astq.cmp_parts(cmp) if cmp is not None else None
+        if p is None or not isinstance(p[1], ORD):
+            return None
         a, _, b = p
-        if isinstance(a, ast.Name) and _from_param(A, a, t_, "last_modified") and not _from_param(A, b, t_, "last_modified"):
-            comps.append((t_, a, b))
-        elif isinstance(b, ast.Name) and _from_param(A, b, t_, "last_modified") and not _from_param(A, a, t_, "last_modified"):
-            comps.append((t_, b, a))
+        if isinstance(a, ast.Name) and _from_param(A, a, at, "last_modified") and not _from_param(A, b, at, "last_modified"):
+            return a, b
+        if isinstance(b, ast.Name) and _from_param(A, b, at, "last_modified") and not _from_param(A, a, at, "last_modified"):
+            return b, a
+        return None
+
+    # a comparison is either a branch condition (`if ... and lm <= ms: V = True`) or part of a boolean expression
+    # stored in the verdict (`V = bool(ms and lm and lm <= ms)`): (node, compare, lm, other, verdict statement | None)
+    comps: list[tuple] = []
+    for t_ in A.cfg.tests():
+        ds_ = date_sides(t_.ast, t_) if t_.kind == "test" else None
+        if ds_ is not None:
+            comps.append((t_, t_.ast, ds_[0], ds_[1], None))
+    for dn in A.def_nodes_of(V):
+        st = dn.ast
+        if isinstance(st, (ast.Assign, ast.AnnAssign)) and st.value is not None and not isinstance(st.value, ast.Constant):
+            for x in ast.walk(st.value):
+                ds_ = date_sides(x, dn) if isinstance(x, ast.Compare) else None
+                if ds_ is not None:
+                    comps.append((dn, x, ds_[0], ds_[1], st))
     ctx.floor(R, "date comparisons in is_resource_modified", len(comps), 1)
-    for C, lm, other in comps:
+    for C, cmp, lm, other, vst in comps:
         # (1) direction: some edge means exactly lm <= other
         okey = other.id if isinstance(other, ast.Name) else None
         L = None
         if okey is not None:
             for l in ("T", "F"):
-                if (lm.id, "<=", okey) in H.order_facts(C.ast, l):
+                if (lm.id, "<=", okey) in H.order_facts(cmp, l):
                     L = l
-        ctx.ob(R, "Last-Modified is compared as 'not later than' the client's date (equal dates match)", L is not None, f"`{norm(C.ast)}`: {'its ' + ('true' if L == 'T' else 'false') + ' edge means ' + lm.id + ' <= ' + str(okey) if L else 'no edge of this test means ' + lm.id + ' <= ' + norm(other)}", san, C.ast, "date comparison direction")
-        # (2) the verdict set from it
-        cands = []
-        for dn in A.def_nodes_of(V):
-            st = dn.ast
-            if isinstance(st, ast.Assign) and isinstance(st.value, ast.Constant) and isinstance(st.value.value, bool):
-                for l in ("T", "F"):
-                    if A.cfg.reachable(dn) and A.cfg.edge_dominates(C, l, dn):
-                        cands.append((dn, st, l))
-        if not cands:
-            raise AnalysisError(f"{san.fq}: no constant verdict assignment depends on `{norm(C.ast)}`")
-        for dn, st, l in cands:
-            facts = H.order_facts(C.ast, l)
-            means_le = okey is not None and H.has_less(facts, lm.id, okey, strict=False)
-            unmod = st.value.value == bool(p_r)
-            ctx.ob(R, "the date verdict is 'not modified' exactly on the not-later side", means_le == unmod, f"`{norm(st)}` on the {'true' if l == 'T' else 'false'} side of `{norm(C.ast)}` with `return {'not ' if p_r else ''}{V}`", san, st, "date verdict side")
-            extra = []
-            for t2, l2 in A.guards(dn):
-                if t2 is C:
-                    continue
+        ctx.ob(R, "Last-Modified is compared as 'not later than' the client's date (equal dates match)", L is not None, f"`{norm(cmp)}`: {'its ' + ('true' if L == 'T' else 'false') + ' edge means ' + lm.id + ' <= ' + str(okey) if L else 'no edge of this test means ' + lm.id + ' <= ' + norm(other)}", san, cmp, "date comparison direction")
+        if vst is None:
+            # (2) the verdict set from it
+            cands = []
+            for dn in A.def_nodes_of(V):
+                st = dn.ast
+                if isinstance(st, ast.Assign) and isinstance(st.value, ast.Constant) and isinstance(st.value.value, bool):
+                    for l in ("T", "F"):
+                        if A.cfg.reachable(dn) and A.cfg.edge_dominates(C, l, dn):
+                            cands.append((dn, st, l))
+            if not cands:
+                raise AnalysisError(f"{san.fq}: no constant verdict assignment depends on `{norm(cmp)}`")
+            for dn, st, l in cands:
+                facts = H.order_facts(cmp, l)
+                means_le = okey is not None and H.has_less(facts, lm.id, okey, strict=False)
+                unmod = st.value.value == bool(p_r)
+                ctx.ob(R, "the date verdict is 'not modified' exactly on the not-later side", means_le == unmod, f"`{norm(st)}` on the {'true' if l == 'T' else 'false'} side of `{norm(cmp)}` with `return {'not ' if p_r else ''}{V}`", san, st, "date verdict side")
+                extra = []
+                for t2, l2 in A.guards(dn):
+                    if t2 is C:
+                        continue
+                    nm = astq.names_in(t2.ast) if t2.ast is not None else set()
+                    if not nm <= {lm.id, okey}:
+                        extra.append(f"{norm(t2.ast)} is {'true' if l2 == 'T' else 'false'}")
+                ctx.ob(R, "the date verdict depends only on the two dates", not extra, f"additionally requires: {extra}" if extra else f"guards of `{norm(st)}` mention only {lm.id} / {okey}", san, st, "date verdict guards")
+        else:
+            # (2') the verdict is the value of a boolean expression over the comparison: enumerate its truth table
+            leaves = _bool_leaves(vst.value)
+            others = [x for x in leaves if x is not cmp]
+            rows = []
+            for bits in itertools.product((False, True), repeat=len(leaves)):
+                val = {id(x): b_ for x, b_ in zip(leaves, bits)}
+                rows.append((val, _bool_eval(vst.value, val) == bool(p_r)))
+            unmod_rows = [val for val, u in rows if u]
+            side_ok = L is not None and bool(unmod_rows) and all(val[id(cmp)] == (L == "T") for val in unmod_rows)
+            ctx.ob(R, "the date verdict is 'not modified' exactly on the not-later side", side_ok, f"`{norm(vst)}` with `return {'not ' if p_r else ''}{V}`: not modified in {len(unmod_rows)} of {len(rows)} valuations of its {len(leaves)} condition(s)" + ("" if side_ok or L is None else f", not all of them with `{norm(cmp)}` {'true' if L == 'T' else 'false'}"), san, vst, "date verdict side")
+            extra = [norm(x) for x in others if not astq.names_in(x) <= {lm.id, okey}]
+            for t2, l2 in A.guards(C):
                 nm = astq.names_in(t2.ast) if t2.ast is not None else set()
                 if not nm <= {lm.id, okey}:
                     extra.append(f"{norm(t2.ast)} is {'true' if l2 == 'T' else 'false'}")
-            ctx.ob(R, "the date verdict depends only on the two dates", not extra, f"additionally requires: {extra}" if extra else f"guards of `{norm(st)}` mention only {lm.id} / {okey}", san, st, "date verdict guards")
+            ctx.ob(R, "the date verdict depends only on the two dates", not extra, f"additionally depends on: {extra}" if extra else f"`{norm(vst)}` mentions only {lm.id} / {okey}", san, vst, "date verdict guards")
         # (4) normalisation of every non-None value that reaches the comparison
         none_edges = []
         for t2 in A.cfg.tests():
@@ -555,10 +885,10 @@ def rule_3(ctx: Ctx, A: FA, V: str, p_r: int) -> None:
                     if set(kws) - {"microsecond"} and f"`{norm(rc)}` sets {kws}" not in tot["fields"]:
                         tot["fields"].append(f"`{norm(rc)}` sets {kws}")
         if not ndefs:
-            raise AnalysisError(f"{san.fq}: no binding of `{lm.id}` reaches `{norm(C.ast)}` as a value")
-        ctx.ob(R, "every Last-Modified value reaching the comparison went through _dt_as_utc (naive: marked UTC, aware: converted)", not tot["utc"], f"not normalised: {tot['utc']}" if tot["utc"] else f"{ndefs} non-None binding(s) of `{lm.id}`, all through _dt_as_utc", san, C.ast, "date comparison utc")
-        ctx.ob(R, "every Last-Modified value reaching the comparison had its microseconds cleared", not tot["sec"], f"no replace(microsecond=0) on: {tot['sec']}" if tot["sec"] else "replace(microsecond=0) on every chain", san, C.ast, "date comparison whole seconds")
-        ctx.ob(R, "replace() on the way to the comparison changes nothing but the microseconds (no relabelled tzinfo, no coarser resolution)", not tot["fields"], "; ".join(tot["fields"]) if tot["fields"] else "only microsecond is replaced", san, C.ast, "date comparison replace fields")
+            raise AnalysisError(f"{san.fq}: no binding of `{lm.id}` reaches `{norm(cmp)}` as a value")
+        ctx.ob(R, "every Last-Modified value reaching the comparison went through _dt_as_utc (naive: marked UTC, aware: converted)", not tot["utc"], f"not normalised: {tot['utc']}" if tot["utc"] else f"{ndefs} non-None binding(s) of `{lm.id}`, all through _dt_as_utc", san, cmp, "date comparison utc")
+        ctx.ob(R, "every Last-Modified value reaching the comparison had its microseconds cleared", not tot["sec"], f"no replace(microsecond=0) on: {tot['sec']}" if tot["sec"] else "replace(microsecond=0) on every chain", san, cmp, "date comparison whole seconds")
+        ctx.ob(R, "replace() on the way to the comparison changes nothing but the microseconds (no relabelled tzinfo, no coarser resolution)", not tot["fields"], "; ".join(tot["fields"]) if tot["fields"] else "only microsecond is replaced", san, cmp, "date comparison replace fields")
 
     # (5) _dt_as_utc itself: relabel only naive values, convert the others
     fu = repo.func("werkzeug._internal._dt_as_utc")
@@ -568,9 +898,9 @@ def rule_3(ctx: Ctx, A: FA, V: str, p_r: int) -> None:
     def is_utc(e: ast.AST) -> bool:
         return (U.resolve(e) or "") == "datetime.timezone.utc"
 
-    def tz_atom(t_) -> str | None:
+    def tz_atom(e_: ast.AST | None) -> str | None:
         """'naive' / 'utc' : what the TRUE edge of the atom says about dt.tzinfo (prefixed with ! for the false edge meaning it)"""
-        p = astq.cmp_parts(t_.ast) if t_.ast is not None else None
+        p = astq.cmp_parts(e_) if e_ is not None else None
         if p is None:
             return None
         a, op, b = p
@@ -585,21 +915,25 @@ def rule_3(ctx: Ctx, A: FA, V: str, p_r: int) -> None:
         return None
 
     nret = {"relabel": 0, "convert": 0}
-    for r in astq.returns_of(fu.node):
+    expanded = H.expand_returns(fu.node)
+    for r, v, extra in expanded:
         rn = U.node(r)
         known = set()
-        for t_, l in U.guards(rn):
-            k = tz_atom(t_)
+        for e_, l in [(t_.ast, l) for t_, l in U.guards(rn)] + extra:
+            k = tz_atom(e_)
             if k is not None:
                 neg = k.startswith("!")
                 k = k.lstrip("!")
                 holds = (l == "T") != neg
                 known.add(k if holds else "not-" + k)
-            if t_.ast is not None and H.none_proving(t_.ast, l) == dt:
+            if e_ is not None and H.none_proving(e_, l) == dt:
                 known.add("none")
-        v = r.value
         kind = "other"
-        if isinstance(v, ast.Name) and v.id == dt:
+        if v is None or astq.is_none(v):
+            kind = "unchanged"
+            ok = "none" in known
+            why = "None is returned only for None"
+        elif isinstance(v, ast.Name) and v.id == dt:
             kind = "unchanged"
             ok = "none" in known or "utc" in known
             why = "returned unchanged only when it is None or already UTC"
@@ -616,8 +950,8 @@ def rule_3(ctx: Ctx, A: FA, V: str, p_r: int) -> None:
             why = "unrecognised result"
         if kind in nret:
             nret[kind] += 1
-        ctx.ob(R, f"_dt_as_utc: {why}", ok, f"`{norm(r)}` under {sorted(known)}", fu, r, f"_dt_as_utc return {kind} {norm(v) if v is not None else ''}")
-    ctx.floor(R, "_dt_as_utc returns", len(astq.returns_of(fu.node)), 3)
+        ctx.ob(R, f"_dt_as_utc: {why}", ok, f"`return {norm(v) if v is not None else ''}` under {sorted(known)}", fu, r, f"_dt_as_utc return {kind} {norm(v) if v is not None else ''}")
+    ctx.floor(R, "_dt_as_utc results", len(expanded), 2)
     ctx.ob(R, "_dt_as_utc has a branch that converts aware values (astimezone) and one that marks naive values", nret["convert"] >= 1 and nret["relabel"] >= 1, f"astimezone returns: {nret['convert']}, replace(tzinfo=) returns: {nret['relabel']}", fu, fu.node, "_dt_as_utc branches")
 
 
@@ -654,17 +988,33 @@ def _irm_args(ctx: Ctx, X: FA, call: ast.Call, want_ignore: bool) -> tuple[bool,
     return ok, ", ".join(parts)
 
 
-def _status_stores(fn: ast.AST) -> list[tuple[ast.Assign, int]]:
+def _status_code_of(v: ast.AST | None) -> int | None:
+    if isinstance(v, ast.Constant) and isinstance(v.value, int) and not isinstance(v.value, bool):
+        return v.value
+    if isinstance(v, ast.Constant) and isinstance(v.value, str) and v.value[:3].isdigit():
+        return int(v.value[:3])
+    return None
+
+
+def _status_stores_c(fn: ast.AST) -> list[tuple[ast.Assign, int, list[tuple[ast.AST, str]]]]:
+    """(statement, status code, extra condition atoms) for `self.status_code = <const>` and for each arm of
+    `self.status_code = <const> if c else <const>`."""
     out = []
     for s in walk_no_nested(fn):
         if isinstance(s, ast.Assign) and len(s.targets) == 1 and (astq.is_self_attr(s.targets[0], "status_code") or astq.is_self_attr(s.targets[0], "status")):
-            v = s.value
-            if isinstance(v, ast.Constant) and isinstance(v.value, int):
-                out.append((s, v.value))
-            elif isinstance(v, ast.Constant) and isinstance(v.value, str) and v.value[:3].isdigit():
-                out.append((s, int(v.value[:3])))
+            for v, conds in H.split_ifexp(s.value):
+                code = _status_code_of(v)
+                if code is not None:
+                    atoms: list[tuple[ast.AST, str]] = []
+                    for c, l in conds:
+                        atoms += H.cond_atoms(c, l)
+                    out.append((s, code, atoms))
     out.sort(key=lambda p: p[0].lineno)
     return out
+
+
+def _status_stores(fn: ast.AST) -> list[tuple[ast.Assign, int]]:
+    return [(s, code) for s, code, _ in _status_stores_c(fn)]
 
 
 def rule_4(ctx: Ctx) -> None:
@@ -678,7 +1028,10 @@ def rule_4(ctx: Ctx) -> None:
     for t_ in M.cfg.tests():
         p = astq.cmp_parts(t_.ast) if t_.kind == "test" and t_.ast is not None else None
         if p and isinstance(p[1], (ast.In, ast.NotIn)):
-            hk = H.header_get_key(p[0])
+            subj = p[0]
+            if isinstance(subj, ast.Name):  # method = environ["REQUEST_METHOD"]
+                subj = M.single_value(subj) or subj
+            hk = H.header_get_key(subj)
             if hk and hk[1] == "REQUEST_METHOD":
                 gate = (t_, "T" if isinstance(p[1], ast.In) else "F", hk[0], p[2])
     if gate is None:
@@ -707,17 +1060,32 @@ def rule_4(ctx: Ctx) -> None:
         if d.value is not None and any(d.value is c for c in prc):
             is206.add(d.name)
 
-    irm_atoms = [t_ for t_ in M.cfg.tests() if t_.kind == "test" and isinstance(t_.ast, ast.Call) and M.resolve(t_.ast.func) == WRAP]
+    # tests on is_resource_modified(...): the call itself, or a local holding its (negated) result.
+    # irm[test node] = (call, label of the edge that means "not modified")
+    irm: dict = {}
+    for t_ in M.cfg.tests():
+        if t_.kind != "test" or t_.ast is None:
+            continue
+        e_, nn = t_.ast, 0
+        if isinstance(e_, ast.Name):
+            sv = M.single_value(e_)
+            if sv is None:
+                continue
+            e_, nn = H.strip_not(sv)
+        if isinstance(e_, ast.Call) and M.resolve(e_.func) == WRAP:
+            irm[t_] = (e_, "F" if nn % 2 == 0 else "T")
+    irm_atoms = list(irm)
     if not irm_atoms:
         raise AnalysisError(f"{mc.fq}: no test on is_resource_modified(...)")
     for t_ in irm_atoms:
-        ok, fact = _irm_args(ctx, M, t_.ast, True)
-        b = H.bind(t_.ast, repo.func(WRAP), bound=False)
+        call_ = irm[t_][0]
+        ok, fact = _irm_args(ctx, M, call_, True)
+        b = H.bind(call_, repo.func(WRAP), bound=False)
         ok = ok and "environ" in b and norm(b["environ"]) == env_name
-        ctx.ob(R, "304/412 are decided against the response's own ETag and Last-Modified, If-Range not considered", ok, fact, mc, t_.ast, "make_conditional is_resource_modified arguments")
+        ctx.ob(R, "304/412 are decided against the response's own ETag and Last-Modified, If-Range not considered", ok, fact, mc, call_, "make_conditional is_resource_modified arguments")
 
-    def im_atom(t_) -> bool:
-        e = t_.ast
+    def im_expr(e: ast.AST | None) -> bool:
+        """the condition is the truth of parse_etags(environ.get("HTTP_IF_MATCH")) (directly or through a local)"""
         if isinstance(e, ast.Name):
             e = M.single_value(e)
         if not (isinstance(e, ast.Call) and M.resolve(e.func) == "werkzeug.http.parse_etags" and len(e.args) == 1):
@@ -725,31 +1093,33 @@ def rule_4(ctx: Ctx) -> None:
         hk = H.header_get_key(e.args[0])
         return hk is not None and hk[0] == env_name and hk[1] == "HTTP_IF_MATCH"
 
-    im_atoms = [t_ for t_ in M.cfg.tests() if t_.kind == "test" and t_.ast is not None and im_atom(t_)]
-    stores = [(s, code) for s, code in _status_stores(mc.node) if code in (304, 412)]
-    if not any(code == 304 for _, code in stores):
+    im_atoms = [t_ for t_ in M.cfg.tests() if t_.kind == "test" and t_.ast is not None and im_expr(t_.ast)]
+    stores = [(s, code, extra) for s, code, extra in _status_stores_c(mc.node) if code in (304, 412)]
+    if not any(code == 304 for _, code, _ in stores):
         raise AnalysisError(f"{mc.fq}: no assignment of status 304")
     ctx.floor(R, "304/412 assignments in make_conditional", len(stores), 2)
-    for s, code in stores:
+    for s, code, extra in stores:
         sn = M.node(s)
         gs = M.guards(sn)
         ctx.ob(R, f"status {code} only for GET/HEAD", (G, GL) in gs, f"`{norm(s)}` {'is' if (G, GL) in gs else 'is NOT'} dominated by `{norm(G.ast)}`", mc, s, f"status {code} gated")
-        nm = [t_ for t_ in irm_atoms if (t_, "F") in gs]
-        ctx.ob(R, f"status {code} only when is_resource_modified says not modified", bool(nm), f"`{norm(s)}` guards: {[norm(t_.ast)[:40] + ('' if l == 'T' else ' is false') for t_, l in gs]}", mc, s, f"status {code} needs not-modified")
+        nm = [t_ for t_ in irm_atoms if (t_, irm[t_][1]) in gs]
+        shown = [norm(t_.ast)[:40] + ('' if l == 'T' else ' is false') for t_, l in gs] + [norm(e_)[:40] + ('' if l == 'T' else ' is false') for e_, l in extra]
+        ctx.ob(R, f"status {code} only when is_resource_modified says not modified", bool(nm), f"`{norm(s)}` guards: {shown}", mc, s, f"status {code} needs not-modified")
         want = "T" if code == 412 else "F"
-        hit = [t_ for t_ in im_atoms if (t_, want) in gs]
-        ctx.ob(R, "status 412 only under a non-empty If-Match" if code == 412 else "status 304 only without If-Match (a failed If-Match is 412)", bool(hit), f"`{norm(s)}` {'is' if hit else 'is NOT'} on the {'true' if want == 'T' else 'false'} side of a parse_etags({env_name}.get('HTTP_IF_MATCH')) test", mc, s, f"status {code} If-Match side")
+        hit = [t_ for t_ in im_atoms if (t_, want) in gs] + [e_ for e_, l in extra if l == want and im_expr(e_)]
+        ctx.ob(R, "status 412 only under a non-empty If-Match" if code == 412 else "status 304 only without If-Match (a failed If-Match is 412)", bool(hit), f"status {code} in `{norm(s)}` {'is' if hit else 'is NOT'} on the {'true' if want == 'T' else 'false'} side of a parse_etags({env_name}.get('HTTP_IF_MATCH')) test", mc, s, f"status {code} If-Match side")
         if code == 304:
             allowed = {id(G)} | {id(t_) for t_ in irm_atoms} | {id(t_) for t_ in im_atoms}
-            extra = [f"{norm(t_.ast)} is {'true' if l == 'T' else 'false'}" for t_, l in gs if id(t_) not in allowed and not (isinstance(t_.ast, ast.Name) and t_.ast.id in is206)]
-            ctx.ob(R, "304 follows whenever the validators match for GET/HEAD (no further condition)", not extra, f"additionally requires: {extra}" if extra else "guards: method test, not-modified, no If-Match (and not already 206)", mc, s, "status 304 guards")
+            more = [f"{norm(t_.ast)} is {'true' if l == 'T' else 'false'}" for t_, l in gs if id(t_) not in allowed and not (isinstance(t_.ast, ast.Name) and t_.ast.id in is206)]
+            more += [f"{norm(e_)} is {'true' if l == 'T' else 'false'}" for e_, l in extra if not im_expr(e_)]
+            ctx.ob(R, "304 follows whenever the validators match for GET/HEAD (no further condition)", not more, f"additionally requires: {more}" if more else "guards: method test, not-modified, no If-Match (and not already 206)", mc, s, "status 304 guards")
 
     # ---- the 206 path inside _process_range_request
     pr = _method(ctx, resp, "_process_range_request")
     P = FA(repo, pr)
     proc = [t_ for t_ in P.cfg.tests() if t_.kind == "test" and isinstance(t_.ast, ast.Call) and isinstance(t_.ast.func, ast.Attribute) and astq.is_name(t_.ast.func.value, "self") and t_.ast.func.attr == "_is_range_request_processable"]
     marks: list[tuple[str, ast.AST]] = [("status 206", s) for s, code in _status_stores(pr.node) if code == 206]
-    marks += [("range wrap", c) for c in P.method_calls("_wrap_range_response")]
+    marks += [("range wrap", WrapSite(ctx, P).call)]
     marks += [("Range parse", c) for c in P.calls_to("werkzeug.http.parse_range_header")]
     if len(marks) < 3:
         raise AnalysisError(f"{pr.fq}: expected a 206 assignment, a _wrap_range_response call and a parse_range_header call")
@@ -783,9 +1153,21 @@ def rule_4(ctx: Ctx) -> None:
     facts = []
     for bp in tp:
         absent = any(key_lit(a, l, "HTTP_IF_RANGE") == "absent" for a, l in bp.literals)
-        unmod = [a for a, l in bp.literals if l == "F" and isinstance(a, ast.Call) and Q.resolve(a.func) == WRAP]
+        unmod = []
+        calls_ = []
+        for a, l in bp.literals:
+            nn = 0
+            if isinstance(a, ast.Name):  # modified = is_resource_modified(...) ; return not modified
+                asg = astq.assigns_to(q.node, a.id)
+                if len(asg) != 1 or asg[0][1] is None:
+                    continue
+                a, nn = H.strip_not(asg[0][1])
+            if isinstance(a, ast.Call) and Q.resolve(a.func) == WRAP:
+                calls_.append(a)
+                if l == ("F" if nn % 2 == 0 else "T"):
+                    unmod.append(a)
         irm_ok = irm_ok and (absent or bool(unmod))
-        for a in unmod:
+        for a in calls_:
             ok, fact = _irm_args(ctx, Q, a, False)
             b = H.bind(a, repo.func(WRAP), bound=False)
             ok = ok and "environ" in b and astq.is_name(b["environ"], env_q)
@@ -830,13 +1212,71 @@ class RangeSlots:
         return len(ds) == 1 and next(iter(ds)).stmt is st
 
 
+class WrapSite:
+    """where _process_range_request replaces the body by a _RangeWrapper: through the helper
+    ``self._wrap_range_response(start, length)`` or with the construction inlined."""
+
+    def __init__(self, ctx: Ctx, P: FA):
+        repo = ctx.repo
+        pr = P.fi
+        resp = repo.cls(RESP)
+        rwc = H.class_of(repo, "werkzeug.wsgi._RangeWrapper")
+        init = rwc.methods.get("__init__")
+        if init is None or not {"iterable", "start_byte", "byte_range"} <= set(init.params):
+            raise AnchorMissing("_RangeWrapper.__init__(iterable, start_byte, byte_range) not found")
+        self.init = init
+        wcs = [c for c in P.method_calls("_wrap_range_response") if astq.is_name(c.func.value, "self")]  # type: ignore[attr-defined]
+        direct = P.calls_to("werkzeug.wsgi._RangeWrapper")
+        if len(wcs) + len(direct) != 1:
+            raise AnalysisError(f"{pr.fq}: expected one self._wrap_range_response call or one _RangeWrapper construction, found {len(wcs)} + {len(direct)}")
+        self.inline = bool(direct)
+        if self.inline:
+            self.call = self.ctor = direct[0]
+            self.W = P
+            self.helper = None
+            bb = H.bind(direct[0], init, bound=True)
+            self.ctor_args = bb
+            self.start, self.length = bb.get("start_byte"), bb.get("byte_range")
+            self.pnames = ("start_byte", "byte_range")
+        else:
+            wr = _method(ctx, resp, "_wrap_range_response")
+            self.helper = wr
+            self.call = wcs[0]
+            b = H.bind(wcs[0], wr, bound=True)
+            wparams = [p for p in wr.params if p != "self"]
+            if len(wparams) != 2:
+                raise AnalysisError(f"{wr.fq}: expected (start, length) parameters")
+            self.pnames = (wparams[0], wparams[1])
+            self.start, self.length = b.get(wparams[0]), b.get(wparams[1])
+            self.W = FA(repo, wr)
+            rws = self.W.calls_to("werkzeug.wsgi._RangeWrapper")
+            if len(rws) != 1:
+                raise AnalysisError(f"{wr.fq}: expected one _RangeWrapper construction, found {len(rws)}")
+            self.ctor = rws[0]
+            self.ctor_args = H.bind(rws[0], init, bound=True)
+
+
+def _is_206_test(e_: ast.AST | None, l: str) -> bool:
+    p = astq.cmp_parts(e_) if e_ is not None else None
+    if not p:
+        return False
+    a, op, b = p
+    if isinstance(a, ast.Constant):
+        a, b = b, a
+    return norm(a) == "self.status_code" and isinstance(b, ast.Constant) and b.value == 206 and ((isinstance(op, ast.Eq) and l == "T") or (isinstance(op, ast.NotEq) and l == "F"))
+
+
 def _header_store(fn: ast.AST, name: str) -> list[ast.Assign]:
+    """`self.headers["Name"] = v` and the header-property form `self.name = v` (header_property descriptors of Response)"""
     out = []
+    attr = name.replace("-", "_")
     for s in walk_no_nested(fn):
         if isinstance(s, ast.Assign) and len(s.targets) == 1 and isinstance(s.targets[0], ast.Subscript) and astq.is_self_attr(s.targets[0].value, "headers"):
             k = astq.const_str(s.targets[0].slice)
             if k is not None and k.lower() == name:
                 out.append(s)
+        elif isinstance(s, ast.Assign) and len(s.targets) == 1 and astq.is_self_attr(s.targets[0], attr):
+            out.append(s)
     return out
 
 
@@ -859,8 +1299,16 @@ def rule_5(ctx: Ctx, P: FA, S: RangeSlots) -> None:
     ctx.ob(R, "byte window and Content-Range come from the same parsed Range and the same complete length", both, f"`{norm(S.rfl)}` / `{norm(S.tcr)}`", pr, S.rfl, "one range one length")
 
     def is_rt(e: ast.AST, idx: int) -> bool:
+        """e is element idx of the range_for_length tuple: `rt[idx]` or a local unpacked from position idx of it"""
         sc = H.subscript_const(e)
-        return sc is not None and sc[1] == idx and S.is_var(sc[0], S.RT, S.rfl_st)
+        if sc is not None:
+            return sc[1] == idx and S.is_var(sc[0], S.RT, S.rfl_st)
+        if isinstance(e, ast.Name):
+            ds = P.defs(e)
+            if len(ds) == 1:
+                d = next(iter(ds))
+                return d.kind == "unpack" and d.index == idx and isinstance(d.stmt, ast.Assign) and isinstance(d.target, ast.Name) and len(d.stmt.targets) == 1 and isinstance(d.stmt.targets[0], (ast.Tuple, ast.List)) and len(d.stmt.targets[0].elts) == 2 and d.value is not None and S.is_var(d.value, S.RT, S.rfl_st)
+        return False
 
     def is_span(e: ast.AST | None) -> bool:
         return isinstance(e, ast.BinOp) and isinstance(e.op, ast.Sub) and is_rt(e.left, 1) and is_rt(e.right, 0)
@@ -879,25 +1327,24 @@ def rule_5(ctx: Ctx, P: FA, S: RangeSlots) -> None:
     if len(cls_) != 1:
         raise AnalysisError(f"{pr.fq}: expected one Content-Length store, found {len(cls_)}")
     v = cls_[0].value
-    inner = v.args[0] if isinstance(v, ast.Call) and dotted(v.func) == "str" and len(v.args) == 1 else None
+    if isinstance(v, ast.Call) and dotted(v.func) == "str" and len(v.args) == 1 and not v.keywords:
+        inner = v.args[0]
+    elif astq.is_self_attr(cls_[0].targets[0]):
+        inner = v  # the content_length header property renders the int itself
+    else:
+        inner = None
     cl_def = span_def(inner) if inner is not None else None
     ctx.ob(R, "Content-Length is str(stop - start) of the range_for_length tuple", cl_def is not None, f"`{norm(cls_[0])}`" + (f" with `{norm(cl_def.stmt)}`" if cl_def not in (None, True) else ""), pr, cls_[0], "content-length source")
 
-    wr = _method(ctx, resp, "_wrap_range_response")
-    wcs = [c for c in P.method_calls("_wrap_range_response") if astq.is_name(c.func.value, "self")]  # type: ignore[attr-defined]
-    if len(wcs) != 1:
-        raise AnalysisError(f"{pr.fq}: expected one self._wrap_range_response call, found {len(wcs)}")
-    b = H.bind(wcs[0], wr, bound=True)
-    wparams = [p for p in wr.params if p != "self"]
-    if len(wparams) != 2:
-        raise AnalysisError(f"{wr.fq}: expected (start, length) parameters")
-    s_ok = wparams[0] in b and is_rt(b[wparams[0]], 0)
-    ld = span_def(b[wparams[1]]) if wparams[1] in b else None
+    site = WrapSite(ctx, P)
+    wcall = site.call
+    s_ok = site.start is not None and is_rt(site.start, 0)
+    ld = span_def(site.length) if site.length is not None else None
     l_ok = ld is not None and (ld is True or cl_def is True or ld is cl_def)
-    ctx.ob(R, "the body window starts at the tuple's start", s_ok, f"{wparams[0]}={norm(b[wparams[0]]) if wparams[0] in b else 'absent'}", pr, wcs[0], "wrap start")
-    ctx.ob(R, "the body window length is the Content-Length value", l_ok, f"{wparams[1]}={norm(b[wparams[1]]) if wparams[1] in b else 'absent'}", pr, wcs[0], "wrap length")
+    ctx.ob(R, "the body window starts at the tuple's start", s_ok, f"{site.pnames[0]}={norm(site.start) if site.start is not None else 'absent'}", pr, wcall, "wrap start")
+    ctx.ob(R, "the body window length is the Content-Length value", l_ok, f"{site.pnames[1]}={norm(site.length) if site.length is not None else 'absent'}", pr, wcall, "wrap length")
 
-    crs = [s for s in walk_no_nested(pr.node) if isinstance(s, ast.Assign) and len(s.targets) == 1 and astq.is_self_attr(s.targets[0], "content_range")] + _header_store(pr.node, "content-range")
+    crs = _header_store(pr.node, "content-range")
     if len(crs) != 1:
         raise AnalysisError(f"{pr.fq}: expected one Content-Range store, found {len(crs)}")
     ctx.ob(R, "Content-Range is the to_content_range_header result", S.is_var(crs[0].value, S.CR, S.tcr_st), f"`{norm(crs[0])}`", pr, crs[0], "content-range source")
@@ -905,10 +1352,15 @@ def rule_5(ctx: Ctx, P: FA, S: RangeSlots) -> None:
     st206 = [s for s, code in _status_stores(pr.node) if code == 206]
     if len(st206) != 1:
         raise AnalysisError(f"{pr.fq}: expected one status 206 store, found {len(st206)}")
-    wn = P.node(wcs[0])
-    before = P.cfg.node_dominates(P.node(st206[0]), wn)
-    ctx.ob(R, "status 206 is set before the body is wrapped (the wrap is conditional on it)", before, f"`{norm(st206[0])}` {'dominates' if before else 'does NOT dominate'} `{norm(wcs[0])}`", pr, wcs[0], "status before wrap")
-    effects = [("Content-Length", cls_[0]), ("Content-Range", crs[0]), ("status 206", st206[0]), ("body wrap", wcs[0])]
+    wn = P.node(wcall)
+    if site.inline:
+        # the construction is inlined and does not look at the status: the order of the two statements is immaterial
+        # (both must precede `return True`, and the wrap must not be under a different condition - see 'wrap iff 206')
+        ctx.ob(R, "status 206 is set before the body is wrapped (the wrap is conditional on it)", True, f"`{norm(wcall)[:70]}` is inlined and does not test the status", pr, wcall, "status before wrap")
+    else:
+        before = P.cfg.node_dominates(P.node(st206[0]), wn)
+        ctx.ob(R, "status 206 is set before the body is wrapped (the wrap is conditional on it)", before, f"`{norm(st206[0])}` {'dominates' if before else 'does NOT dominate'} `{norm(wcall)[:70]}`", pr, wcall, "status before wrap")
+    effects = [("Content-Length", cls_[0]), ("Content-Range", crs[0]), ("status 206", st206[0]), ("body wrap", wcall)]
     trues = [r for r in astq.returns_of(pr.node) if isinstance(r.value, ast.Constant) and r.value.value is True]
     if not trues:
         raise AnalysisError(f"{pr.fq}: no `return True`")
@@ -922,24 +1374,29 @@ def rule_5(ctx: Ctx, P: FA, S: RangeSlots) -> None:
         touched = [w for w, a in effects if rn.id in P.cfg.reach(P.node(a))]
         ctx.ob(R, "an ignored range request leaves headers, status and body alone", not touched, f"`{norm(r)}` reachable after: {touched}" if touched else f"`{norm(r)}` is not reachable from any 206 effect", pr, r, "no partial 206")
 
-    # _wrap_range_response
-    W = FA(repo, wr)
-    rws = W.calls_to("werkzeug.wsgi._RangeWrapper")
-    if len(rws) != 1:
-        raise AnalysisError(f"{wr.fq}: expected one _RangeWrapper construction, found {len(rws)}")
-    rwc = H.class_of(repo, "werkzeug.wsgi._RangeWrapper")
-    init = rwc.methods.get("__init__")
-    if init is None or not {"iterable", "start_byte", "byte_range"} <= set(init.params):
-        raise AnchorMissing("_RangeWrapper.__init__(iterable, start_byte, byte_range) not found")
-    bb = H.bind(rws[0], init, bound=True)
-    ok = ("iterable" in bb and astq.is_self_attr(bb["iterable"], "response") and "start_byte" in bb and isinstance(bb["start_byte"], ast.Name) and _only_param_def(W, bb["start_byte"], wparams[0])
-          and "byte_range" in bb and isinstance(bb["byte_range"], ast.Name) and _only_param_def(W, bb["byte_range"], wparams[1]))
-    ctx.ob(R, "_RangeWrapper gets (self.response, start -> start_byte, length -> byte_range)", ok, f"`{norm(rws[0])}` binds {{{', '.join(k + ': ' + norm(v) for k, v in bb.items())}}}", wr, rws[0], "wrapper arguments")
-    st = astq.stmt_of(wr, rws[0])
-    stored = isinstance(st, ast.Assign) and len(st.targets) == 1 and astq.is_self_attr(st.targets[0], "response") and st.value is rws[0]
-    gs = W.guards(rws[0])
-    g206 = [(t_, l) for t_, l in gs if (p := astq.cmp_parts(t_.ast)) and norm(p[0]) in ("self.status_code",) and isinstance(p[2], ast.Constant) and p[2].value == 206 and ((isinstance(p[1], ast.Eq) and l == "T") or (isinstance(p[1], ast.NotEq) and l == "F"))]
-    ctx.ob(R, "the wrapper replaces self.response exactly when the status is 206", stored and len(g206) == 1 and len(gs) == 1, f"`{norm(st)}` under {[norm(t_.ast) + ('' if l == 'T' else ' is false') for t_, l in gs]}", wr, rws[0], "wrap iff 206")
+    # the _RangeWrapper construction (inside _wrap_range_response, or inlined)
+    W = site.W
+    rwc_call = site.ctor
+    bb = site.ctor_args
+    where = site.helper or pr
+    if site.inline:
+        ok = "iterable" in bb and astq.is_self_attr(bb["iterable"], "response") and "start_byte" in bb and "byte_range" in bb
+    else:
+        ok = ("iterable" in bb and astq.is_self_attr(bb["iterable"], "response") and "start_byte" in bb and isinstance(bb["start_byte"], ast.Name) and _only_param_def(W, bb["start_byte"], site.pnames[0])
+              and "byte_range" in bb and isinstance(bb["byte_range"], ast.Name) and _only_param_def(W, bb["byte_range"], site.pnames[1]))
+    ctx.ob(R, "_RangeWrapper gets (self.response, start -> start_byte, length -> byte_range)", ok, f"`{norm(rwc_call)}` binds {{{', '.join(k + ': ' + norm(v) for k, v in bb.items())}}}", where, rwc_call, "wrapper arguments")
+    st = astq.stmt_of(where, rwc_call)
+    stored = isinstance(st, ast.Assign) and len(st.targets) == 1 and astq.is_self_attr(st.targets[0], "response") and st.value is rwc_call
+    gs = W.guards(rwc_call)
+    g206 = [(t_, l) for t_, l in gs if _is_206_test(t_.ast, l)]
+    if site.inline:
+        # no helper: the construction must sit right behind the 206 assignment, under no further condition
+        base = {(id(t_), l) for t_, l in P.guards(st206[0])}
+        mine = {(id(t_), l) for t_, l in gs if (t_, l) not in g206}
+        iff = stored and mine == base
+    else:
+        iff = stored and len(g206) == 1 and len(gs) == 1
+    ctx.ob(R, "the wrapper replaces self.response exactly when the status is 206", iff, f"`{norm(st)}` under {[norm(t_.ast) + ('' if l == 'T' else ' is false') for t_, l in gs]}" + (" (inlined; the 206 assignment is under the same conditions)" if site.inline and iff else ""), where, rwc_call, "wrap iff 206")
 
     # Range.to_content_range_header
     rng = H.class_of(repo, "werkzeug.datastructures.range.Range")
@@ -947,11 +1404,29 @@ def rule_5(ctx: Ctx, P: FA, S: RangeSlots) -> None:
     T = FA(repo, tc)
     lp = [p for p in tc.params if p != "self"][0]
     n = 0
-    for r in astq.returns_of(tc.node):
-        if r.value is None or astq.is_none(r.value):
+
+    def from_rfl(e: ast.AST) -> bool:
+        if not isinstance(e, ast.Name):
+            return False
+        v = T.single_value(e)
+        return isinstance(v, ast.Call) and isinstance(v.func, ast.Attribute) and astq.is_name(v.func.value, "self") and v.func.attr == "range_for_length" and len(v.args) == 1 and isinstance(v.args[0], ast.Name) and _only_param_def(T, v.args[0], lp)
+
+    def elem(e: ast.AST, idx: int) -> bool:
+        """element idx of the range_for_length(length) tuple (subscript, or a local unpacked from that position)"""
+        sc = H.subscript_const(e)
+        if sc is not None:
+            return sc[1] == idx and from_rfl(sc[0])
+        if isinstance(e, ast.Name):
+            ds = T.defs(e)
+            if len(ds) == 1:
+                d = next(iter(ds))
+                return d.kind == "unpack" and d.index == idx and isinstance(d.stmt, ast.Assign) and len(d.stmt.targets) == 1 and isinstance(d.stmt.targets[0], (ast.Tuple, ast.List)) and len(d.stmt.targets[0].elts) == 2 and d.value is not None and from_rfl(d.value)
+        return False
+
+    for r, js, _conds in H.expand_returns(tc.node):
+        if js is None or astq.is_none(js):
             continue
         n += 1
-        js = r.value
         if not isinstance(js, ast.JoinedStr):
             raise AnalysisError(f"{tc.fq}: `{norm(r)}` is not an f-string")
         consts = [x.value for x in js.values if isinstance(x, ast.Constant)]
@@ -959,18 +1434,9 @@ def rule_5(ctx: Ctx, P: FA, S: RangeSlots) -> None:
         shape = consts == [" ", "-", "/"] and len(exprs) == 4 and isinstance(js.values[0], ast.FormattedValue)
         if not shape:
             raise AnalysisError(f"{tc.fq}: `{norm(r)}` is not `<unit> <first>-<last>/<length>`")
-
-        def from_rfl(e: ast.AST) -> bool:
-            if not isinstance(e, ast.Name):
-                return False
-            v = T.single_value(e)
-            return isinstance(v, ast.Call) and isinstance(v.func, ast.Attribute) and astq.is_name(v.func.value, "self") and v.func.attr == "range_for_length" and len(v.args) == 1 and isinstance(v.args[0], ast.Name) and _only_param_def(T, v.args[0], lp)
-
-        f0 = H.subscript_const(exprs[1])
-        first_ok = f0 is not None and f0[1] == 0 and from_rfl(f0[0])
+        first_ok = elem(exprs[1], 0)
         e2 = exprs[2]
-        l0 = H.subscript_const(e2.left) if isinstance(e2, ast.BinOp) and isinstance(e2.op, ast.Sub) and isinstance(e2.right, ast.Constant) and e2.right.value == 1 else None
-        last_ok = l0 is not None and l0[1] == 1 and from_rfl(l0[0])
+        last_ok = isinstance(e2, ast.BinOp) and isinstance(e2.op, ast.Sub) and isinstance(e2.right, ast.Constant) and e2.right.value == 1 and type(e2.right.value) is int and elem(e2.left, 1)
         tot_ok = isinstance(exprs[3], ast.Name) and _only_param_def(T, exprs[3], lp)
         unit_ok = astq.is_self_attr(exprs[0], "units")
         ctx.ob(R, "Content-Range declares first = start of range_for_length(length)", first_ok, f"`{norm(exprs[1])}`", tc, r, "content-range first")
@@ -1143,11 +1609,10 @@ def rule_7(ctx: Ctx) -> None:
     ctx.ob(R, "is_byte_range_valid(start, stop, length) with all three given is true only if start < stop", H.has_less(pf, pp[0], pp[1], True), f"facts on every true path ({npaths}): {sorted(pf)}", pred, pred.node, "predicate non-empty")
     ctx.ob(R, "is_byte_range_valid(start, stop, length) with all three given is true only if start < length", H.has_less(pf, pp[0], pp[2], True), f"facts on every true path ({npaths}): {sorted(pf)}", pred, pred.node, "predicate inside")
 
-    rets = [r for r in astq.returns_of(rf.node) if r.value is not None and not astq.is_none(r.value)]
+    rets = [(r, v, extra) for r, v, extra in H.expand_returns(rf.node) if v is not None and not astq.is_none(v)]
     ctx.floor(R, "non-None results of range_for_length", len(rets), 1)
-    for idx, r in enumerate(rets):
+    for idx, (r, rv, extra) in enumerate(rets):
         rn = X.node(r)
-        rv = r.value
         if isinstance(rv, ast.Name):
             rv = X.single_value(rv)
         if not (isinstance(rv, ast.Tuple) and len(rv.elts) == 2):
@@ -1156,7 +1621,9 @@ def rule_7(ctx: Ctx) -> None:
         if not isinstance(Se, ast.Name):
             raise AnalysisError(f"{rf.fq}: returned start `{norm(Se)}` is not a local name")
         S = Se.id
-        guards = X.guards(rn)
+        # (condition atom, label, node in which it is evaluated): dominating branch edges and the arms of a
+        # conditional expression in the return itself
+        guards = [(t_.ast, l, t_) for t_, l in X.guards(rn)] + [(e_, l, rn) for e_, l in extra]
 
         def ver(name: str, at) -> str:
             """a name together with the bindings visible at a node: facts are about values, not about names"""
@@ -1171,6 +1638,12 @@ def rule_7(ctx: Ctx) -> None:
         def nonnull_at(e: ast.AST, at) -> bool:
             if isinstance(e, ast.Constant):
                 return e.value is not None
+            if isinstance(e, ast.BinOp) or isinstance(e, ast.UnaryOp) and isinstance(e.op, (ast.USub, ast.UAdd)):
+                return True  # arithmetic yields a number or raises
+            if isinstance(e, ast.Call) and dotted(e.func) in ("min", "max", "abs", "int", "len") and not e.keywords:
+                return True
+            if isinstance(e, ast.IfExp):
+                return nonnull_at(e.body, at) and nonnull_at(e.orelse, at)
             if not isinstance(e, ast.Name):
                 return False
             var = e.id
@@ -1191,17 +1664,17 @@ def rule_7(ctx: Ctx) -> None:
 
         facts: set = set()
         via = []
-        for t_, l in guards:
-            if t_.ast is None:
+        for g_ast, l, t_ in guards:
+            if g_ast is None:
                 continue
-            for a_, rel_, b_ in H.order_facts(t_.ast, l):
+            for a_, rel_, b_ in H.order_facts(g_ast, l):
                 facts.add((ver(a_, t_), rel_, ver(b_, t_)))
-            if isinstance(t_.ast, ast.Call) and l == "T":
-                fi = X.callee(t_.ast)
+            if isinstance(g_ast, ast.Call) and l == "T":
+                fi = X.callee(g_ast)
                 if fi is None or fi.cls is not None:
                     continue
                 try:
-                    b = H.bind(t_.ast, fi, bound=False)
+                    b = H.bind(g_ast, fi, bound=False)
                     rename: dict[str, str | None] = {}
                     nonnull = set()
                     for p in fi.params:
@@ -1215,7 +1688,7 @@ def rule_7(ctx: Ctx) -> None:
                     continue
                 ctx.saw(fi)
                 facts |= fs
-                via.append(f"{norm(t_.ast)} [{cnt} true path(s), non-None: {sorted(nonnull)}]")
+                via.append(f"{norm(g_ast)} [{cnt} true path(s), non-None: {sorted(nonnull)}]")
 
         def lt(e: ast.AST, at, depth: int = 0) -> bool:
             """S < e (e evaluated at node `at`) follows from the facts"""
@@ -1255,8 +1728,8 @@ def rule_7(ctx: Ctx) -> None:
         ctx.ob(R, "a satisfiable range is not empty: start < stop is tested on the returned values", lt(Te, rn), ev, rf, r, f"{tag} non-empty")
         ctx.ob(R, "a satisfiable range ends inside the resource: returned stop is bounded by length", le_len(Te, rn), ev, rf, r, f"{tag} upper bound")
 
-        def g_units(t_, l) -> bool:
-            p = astq.cmp_parts(t_.ast) if t_.ast is not None else None
+        def g_units(e_, l) -> bool:
+            p = astq.cmp_parts(e_) if e_ is not None else None
             if not p:
                 return False
             a, op, b2 = p
@@ -1264,8 +1737,8 @@ def rule_7(ctx: Ctx) -> None:
                 a, b2 = b2, a
             return astq.is_self_attr(a, "units") and astq.const_str(b2) == "bytes" and ((isinstance(op, ast.Eq) and l == "T") or (isinstance(op, ast.NotEq) and l == "F"))
 
-        def g_single(t_, l) -> bool:
-            p = astq.cmp_parts(t_.ast) if t_.ast is not None else None
+        def g_single(e_, l) -> bool:
+            p = astq.cmp_parts(e_) if e_ is not None else None
             if not p:
                 return False
             a, op, b2 = p
@@ -1273,12 +1746,114 @@ def rule_7(ctx: Ctx) -> None:
                 a, b2 = b2, a
             return isinstance(a, ast.Call) and dotted(a.func) == "len" and len(a.args) == 1 and astq.is_self_attr(a.args[0], "ranges") and isinstance(b2, ast.Constant) and b2.value == 1 and ((isinstance(op, ast.Eq) and l == "T") or (isinstance(op, ast.NotEq) and l == "F"))
 
-        def g_len(t_, l) -> bool:
-            return t_.ast is not None and not isinstance(t_.ast, ast.Name) and H.none_proving(t_.ast, H.flip(l)) == Lp
+        def g_len(e_, l) -> bool:
+            return e_ is not None and not isinstance(e_, ast.Name) and H.none_proving(e_, H.flip(l)) == Lp
 
         for what, fn_, key in (("other units than bytes are not satisfiable", g_units, "units"), ("an unknown length is not satisfiable", g_len, "length known"), ("a multi-range request is not satisfiable", g_single, "single range")):
-            ok = any(fn_(t_, l) for t_, l in guards)
-            ctx.ob(R, what, ok, f"`{norm(r)}` guards: {[norm(t_.ast) + ('' if l == 'T' else ' is false') for t_, l in guards]}", rf, r, f"{tag} {key}")
+            ok = any(fn_(e_, l) for e_, l, _ in guards)
+            ctx.ob(R, what, ok, f"`{norm(r)}` guards: {[norm(e_) + ('' if l == 'T' else ' is false') for e_, l, _ in guards if e_ is not None]}", rf, r, f"{tag} {key}")
+
+
+# ---------------------------------------------------------------------
+# R11.8 the position counter of _RangeWrapper stays absolute across a seek
+
+
+def rule_8(ctx: Ctx) -> None:
+    """_RangeWrapper ends the window when its position counter reaches ``end = start_byte + byte_range``, an *absolute*
+    offset in the body.  The counter advances by what is read; a seek moves the body without reading.  So whenever the
+    body is repositioned (``<body>.seek(x)``) the counter must be re-based to the absolute position (``<body>.tell()``,
+    the value seek returns, or x itself) before the method returns - otherwise it counts from the seek target while the
+    end stays absolute and the window ends late (too many bytes) for every start > 0 on seekable bodies.  Premises
+    (checked, otherwise the shape is not modelled -> ANALYSIS-ERROR): the end attribute is bound from
+    start_byte + byte_range in __init__ and nowhere else; exactly one attribute is compared with it by an ordering test."""
+    R = "R11.8"
+    repo = ctx.repo
+    rwc = H.class_of(repo, "werkzeug.wsgi._RangeWrapper")
+    init = rwc.methods.get("__init__")
+    if init is None or not {"start_byte", "byte_range"} <= set(init.params):
+        raise AnchorMissing("_RangeWrapper.__init__(iterable, start_byte, byte_range) not found")
+    IA = FA(repo, init)
+
+    def is_abs_end(e: ast.AST) -> bool:
+        for x in ast.walk(e):
+            if isinstance(x, ast.BinOp) and isinstance(x.op, ast.Add) and all(isinstance(y, ast.Name) for y in (x.left, x.right)):
+                if {x.left.id, x.right.id} == {"start_byte", "byte_range"} and all(_only_param_def(IA, y, y.id) for y in (x.left, x.right)):  # type: ignore[union-attr,arg-type]
+                    return True
+        return False
+
+    ends = {s.targets[0].attr for s in walk_no_nested(init.node) if isinstance(s, ast.Assign) and len(s.targets) == 1 and astq.is_self_attr(s.targets[0]) and is_abs_end(s.value)}  # type: ignore[attr-defined]
+    if len(ends) != 1:
+        raise AnalysisError(f"{init.fq}: expected one attribute bound from start_byte + byte_range, found {sorted(ends)}")
+    end = next(iter(ends))
+    methods = [m for m in rwc.methods.values() if isinstance(m, FuncInfo)]
+    for m in methods:
+        if m is not init and H.self_attr_stores(m.node, end):
+            raise AnalysisError(f"{m.fq}: rebinds self.{end}; the absolute-end model of R11.8 does not apply")
+
+    counters: set[str] = set()
+    cmp_at = None
+    for m in methods:
+        for x in walk_no_nested(m.node):
+            if isinstance(x, ast.Compare) and len(x.ops) == 1 and isinstance(x.ops[0], (ast.Lt, ast.LtE, ast.Gt, ast.GtE)):
+                a, b = x.left, x.comparators[0]
+                for u, v in ((a, b), (b, a)):
+                    if astq.is_self_attr(u, end) and astq.is_self_attr(v):
+                        counters.add(v.attr)  # type: ignore[attr-defined]
+                        cmp_at = (m, x)
+    if len(counters) != 1 or cmp_at is None:
+        raise AnalysisError(f"{rwc.fq}: expected one attribute compared with self.{end} by an ordering test, found {sorted(counters)}")
+    counter = next(iter(counters))
+
+    def body_attr(e: ast.AST) -> str | None:
+        return e.attr if astq.is_self_attr(e) else None  # type: ignore[attr-defined]
+
+    def rebases(X: FA, st: ast.stmt, recv: str, arg: ast.AST | None) -> bool:
+        """st stores the absolute position into the counter"""
+        if not (isinstance(st, ast.Assign) and any(astq.is_self_attr(tg, counter) for tg in st.targets)):
+            return False
+
+        def good(v: ast.AST, depth: int = 0) -> bool:
+            if isinstance(v, ast.Call) and isinstance(v.func, ast.Attribute) and v.func.attr in ("tell", "seek") and body_attr(v.func.value) == recv:
+                return True
+            if arg is not None and norm(v) == norm(arg):
+                return True
+            if isinstance(v, ast.Name) and depth < 3:
+                sv = X.single_value(v)
+                return sv is not None and good(sv, depth + 1)
+            return False
+
+        return good(st.value)
+
+    def helper_rebases(name: str, recv: str) -> bool:
+        """every normal path of method `name` stores <body>.tell() into the counter"""
+        h = rwc.methods.get(name)
+        if not isinstance(h, FuncInfo):
+            return False
+        HA = FA(repo, h)
+        through = [HA.node(s) for s in H.self_attr_stores(h.node, counter) if rebases(HA, s, recv, None)]
+        return bool(through) and HA.cfg.all_paths_pass(HA.cfg.entry, [HA.cfg.exit], through)
+
+    nseek = 0
+    for m in methods:
+        X = FA(repo, m)
+        for c in X.method_calls("seek"):
+            recv = body_attr(c.func.value)  # type: ignore[attr-defined]
+            if recv is None or len(c.args) < 1:
+                continue
+            if len(c.args) > 1 or c.keywords:
+                raise AnalysisError(f"{m.fq}: `{norm(c)}` is not an absolute seek; R11.8 does not model it")
+            nseek += 1
+            sn = X.node(c)
+            through = [X.node(s) for s in H.self_attr_stores(m.node, counter) if rebases(X, s, recv, c.args[0])]
+            for hc in astq.calls(m.node, nested=False):
+                if isinstance(hc.func, ast.Attribute) and astq.is_name(hc.func.value, "self") and not hc.args and not hc.keywords and helper_rebases(hc.func.attr, recv):
+                    through.append(X.node(hc))
+            # the seek happened: follow its normal successors only (an exceptional edge means the body did not move)
+            after = [s_ for s_, l_ in sn.succs if l_ != "exc" and not any(s_ is t_ for t_ in through)]
+            ok = any(sn is t_ for t_ in through) or X.cfg.exit.id not in X.cfg.reach(after, avoid_nodes=through)
+            stores = [norm(s) for s in H.self_attr_stores(m.node, counter)]
+            ctx.ob(R, f"after repositioning the body the position counter self.{counter} (compared with the absolute end self.{end}) is re-based to the absolute position", ok, f"`{norm(c)}` in {m.name}: " + (f"every path to the method's return passes one of {[n.text() for n in through]}" if ok else f"a path reaches the method's return without storing {recv}.tell() / the seek target into self.{counter} (stores of the counter here: {stores})"), m, c, f"counter re-based after seek {norm(c.args[0])}")
+    ctx.floor(R, "seeks of the wrapped body in _RangeWrapper", nseek, 1)
 
 
 
@@ -1290,6 +1865,7 @@ RULES = {
     "R11.5": "Content-Length, Content-Range, the _RangeWrapper window and status 206 derive from one range_for_length / to_content_range_header pair on one parsed Range and one complete length; status is set before the conditional wrap; all four precede `return True` and none precedes `return False`; Content-Range renders start-(stop-1)/length of the same range_for_length",
     "R11.6": "each None from parse_range_header, range_for_length, to_content_range_header leads only to RequestedRangeNotSatisfiable and the value is used only after that check; send_file closes its file and re-raises on that path",
     "R11.7": "every non-None (start, stop) returned by Range.range_for_length is dominated by branch facts 0 <= start, start < stop, stop <= length on the returned values (inline or through a predicate whose true paths are enumerated) and by the bytes-unit, known-length and single-range tests; is_byte_range_valid for non-None arguments implies 0 <= start < stop and start < length",
+    "R11.8": "_RangeWrapper: the attribute compared with the absolute end (start_byte + byte_range) is re-based to the body's absolute position (tell(), the seek result or the seek target) on every path from a seek of the body to the method's return",
 }
 
 
@@ -1302,10 +1878,10 @@ def run(ctx: Ctx) -> None:
         if p not in san.params:
             raise AnchorMissing(f"{SAN} has no parameter {p}")
     A = FA(repo, san)
-    V, p_r = _verdict(A)
+    V, p_r, direct = _verdict(A)
     model = ETagsModel(ctx)
-    verdicts = rule_1(ctx, A, V, p_r, model)
-    rule_2(ctx, A, V, verdicts)
+    verdicts = rule_1(ctx, A, V, p_r, direct, model)
+    rule_2(ctx, A, V, direct, verdicts)
     rule_3(ctx, A, V, p_r)
     rule_4(ctx)
     resp = repo.cls(RESP)
@@ -1314,3 +1890,4 @@ def run(ctx: Ctx) -> None:
     rule_5(ctx, P, S)
     rule_6(ctx, P, S)
     rule_7(ctx)
+    rule_8(ctx)
